@@ -310,3 +310,69 @@ impl BuiltRowset {
         Ok(out)
     }
 }
+
+/// The physical state of one live row-set of a table: every stored row (deleted ones included,
+/// in storage order) and the delete vectors currently applied to it.
+pub struct RowsetLayout {
+    pub rowset_id: u32,
+    pub rows: Vec<crate::array::DataChunk>,
+    /// `(dv_id, deleted row ids)`
+    pub dvs: Vec<(u64, Vec<u32>)>,
+}
+
+impl SecondaryStorage {
+    /// Read the latest snapshot of a table as the engine itself would: which row-sets are live,
+    /// what each one stores, and which delete vectors belong to it.
+    pub async fn verif_layout(&self, table_id: u32) -> StorageResult<Vec<RowsetLayout>> {
+        let table = {
+            let tables = self.tables.read();
+            tables
+                .iter()
+                .find(|(k, _)| k.table_id == table_id)
+                .map(|(_, t)| t.clone())
+        };
+        let Some(table) = table else {
+            return Ok(vec![]);
+        };
+        let version = self.version.pin();
+        let mut ids: Vec<u32> = version
+            .snapshot
+            .get_rowsets_of(table_id)
+            .map(|s| s.iter().copied().collect())
+            .unwrap_or_default();
+        ids.sort_unstable();
+        let col_refs: std::sync::Arc<[crate::storage::StorageColumnRef]> = (0..table.columns.len())
+            .map(|i| crate::storage::StorageColumnRef::Idx(i as u32))
+            .collect();
+        let mut out = vec![];
+        for rowset_id in ids {
+            let rowset = self.version.get_rowset(table_id, rowset_id);
+            let mut dvs: Vec<(u64, Vec<u32>)> = version
+                .snapshot
+                .get_dvs_of(table_id, rowset_id)
+                .map(|s| {
+                    s.iter()
+                        .map(|id| {
+                            let dv = self.version.get_dv(table_id, *id);
+                            (*id, dv.verif_deletes().to_vec())
+                        })
+                        .collect()
+                })
+                .unwrap_or_default();
+            dvs.sort();
+            let mut it = rowset
+                .iter(col_refs.clone(), vec![], ColumnSeekPosition::start(), None)
+                .await?;
+            let mut rows = vec![];
+            while let Some(chunk) = it.next_batch(None).await? {
+                rows.push(chunk.to_data_chunk());
+            }
+            out.push(RowsetLayout {
+                rowset_id,
+                rows,
+                dvs,
+            });
+        }
+        Ok(out)
+    }
+}
